@@ -170,28 +170,51 @@ fn shrink_wval(v: &WVal) -> Vec<WVal> {
 }
 
 pub fn shrink_wmsg(w: &WMsg) -> Vec<WMsg> {
+    // candidates are whole clones: keep their number proportional to what the message weighs (a 66 000-value
+    // message must not be cloned 66 000 times)
+    let weight: usize = w.groups.iter().flat_map(|g| g.attrs.iter()).map(|a| a.values.len() + 1).sum::<usize>().max(1);
+    let budget = (2_000_000 / weight).clamp(8, 600);
     let mut out = Vec::new();
     for gi in 0..w.groups.len() {
         let mut m = w.clone();
         m.groups.remove(gi);
         out.push(m);
     }
-    for gi in 0..w.groups.len() {
+    'attrs: for gi in 0..w.groups.len() {
         for ai in 0..w.groups[gi].attrs.len() {
+            if out.len() >= budget {
+                break 'attrs;
+            }
             let mut m = w.clone();
             m.groups[gi].attrs.remove(ai);
             out.push(m);
         }
     }
-    for gi in 0..w.groups.len() {
+    'values: for gi in 0..w.groups.len() {
         for ai in 0..w.groups[gi].attrs.len() {
             let a = &w.groups[gi].attrs[ai];
+            if out.len() >= budget {
+                break 'values;
+            }
             if a.name.len() > 1 {
                 let mut m = w.clone();
                 m.groups[gi].attrs[ai].name = a.name[..1].to_vec();
                 out.push(m);
             }
+            if a.values.len() > 64 {
+                // wide sets shrink by halves, not value by value
+                let n = a.values.len();
+                for keep in [0..n / 2, n / 2..n, 0..n - 1, 0..1] {
+                    let mut m = w.clone();
+                    m.groups[gi].attrs[ai].values = a.values[keep].to_vec();
+                    out.push(m);
+                }
+                continue;
+            }
             for vi in 0..a.values.len() {
+                if out.len() >= budget {
+                    break 'values;
+                }
                 if a.values.len() > 1 {
                     let mut m = w.clone();
                     m.groups[gi].attrs[ai].values.remove(vi);
@@ -205,7 +228,7 @@ pub fn shrink_wmsg(w: &WMsg) -> Vec<WMsg> {
             }
         }
     }
-    out.truncate(600);
+    out.truncate(budget.max(8));
     out
 }
 
